@@ -241,7 +241,9 @@ def run_check(prop, tier, seed):
                 "KEVOSIM_WORKER": str(w), "KEVOSIM_NWORKERS": str(nworkers),
                 "KEVOSIM_BUDGET_S": str(budget), "KEVOSIM_OUT": os.path.join(outdir, "w%d.json" % w),
                 "KEVOSIM_REPLAYDIR": replaydir, "KEVOSIM_KNOWN": known_path(),
-                "GOMAXPROCS": "2", "GORACE": "halt_on_error=0 log_path=%s" % os.path.join(outdir, "race.w%d" % w),
+                "GOMAXPROCS": "2",
+                # every report is wanted (a confirming re-execution must see the race again)
+                "GORACE": "halt_on_error=0 suppress_equal_stacks=0 suppress_equal_addresses=0 log_path=%s" % os.path.join(outdir, "race.w%d" % w),
             })
             if os.environ.get("KEVOSIM_MAXCASES"):
                 env["KEVOSIM_MAXCASES"] = os.environ["KEVOSIM_MAXCASES"]
@@ -369,7 +371,8 @@ def replay(path):
     try:
         env = dict(ENV)
         outp = os.path.join(outdir, "replay.json")
-        env.update({"KEVOSIM_CHECK": prop, "KEVOSIM_REPLAY": os.path.abspath(path), "KEVOSIM_OUT": outp, "GOMAXPROCS": "2"})
+        env.update({"KEVOSIM_CHECK": prop, "KEVOSIM_REPLAY": os.path.abspath(path), "KEVOSIM_OUT": outp, "GOMAXPROCS": "2",
+                    "GORACE": "halt_on_error=0 suppress_equal_stacks=0 suppress_equal_addresses=0 log_path=%s" % os.path.join(outdir, "race.replay")})
         with open(os.path.join(outdir, "log"), "wb") as logf:
             subprocess.run([binp, "-test.run", "^Test%s$" % prop, "-test.timeout", "30m", "-test.cpu", "1"], env=env,
                            stdout=subprocess.DEVNULL, stderr=logf, cwd=outdir)
